@@ -65,6 +65,7 @@ func c04(c *core.Check) {
 	c04E3sticky(c, fns)
 	c04fieldListsChecked(c)
 	c04languagesValidatedFirst(c)
+	c04includeSearch(c)
 	c04E4(c, inv, fns, parent)
 	c04E5(c, fns)
 	c04E6(c, reach)
